@@ -15,12 +15,14 @@ package ecs
 //@ pred maskEmpty(m Mask) bool = m.bits[0] == 0 && m.bits[1] == 0 && m.bits[2] == 0 && m.bits[3] == 0
 //@ pred maskCard(m Mask) int = popcount(m.bits[0]) + popcount(m.bits[1]) + popcount(m.bits[2]) + popcount(m.bits[3])
 //@ pred validID(i uint8) bool = true
+//@ pred zeroMaskV() Mask = mk(Mask, arr(0, 0, 0, 0))
 //@ endif
 //@ if tiny
 //@ pred specBit(m Mask, i uint8) bool = i < 64 && (m.bits >> i) & 1 == 1
 //@ pred maskEmpty(m Mask) bool = m.bits == 0
 //@ pred maskCard(m Mask) int = popcount(m.bits)
 //@ pred validID(i uint8) bool = i < 64
+//@ pred zeroMaskV() Mask = mk(Mask, 0)
 //@ endif
 
 // Set relations, defined bit by bit (this is the meaning taken from the property statement) ...
@@ -764,6 +766,7 @@ package ecs
 // C17 (view determinacy): the handle and the new pool view (entities, next, available) are functions of the old view alone
 //@   ensures[view] old(p.available) > 0 ==> e.id == old(p.next) && e.gen == old(p.entities[int(p.next)].gen) && p.next == old(p.entities[int(p.next)].id)
 //@   ensures[view] old(p.available) == 0 ==> p.next == old(p.next)
+//@   ensures p.capacityIncrement == old(p.capacityIncrement)
 //@   ensures[view] p.entities[int(e.id)].id == e.id && p.entities[int(e.id)].gen == e.gen
 //@   ensures[view] forall i int :: {p.entities[i].id} 0 <= i && i < old(len(p.entities)) && i != int(e.id) ==> p.entities[i].id == old(p.entities[i].id)
 //@   modifies *p, p.entities[ALL]
@@ -782,7 +785,7 @@ package ecs
 //@   ensures forall i int :: {p.entities[i].gen} 0 <= i && i < old(len(p.entities)) ==> p.entities[i].gen == old(p.entities[i].gen)
 //@   ensures p.entities[int(e.id)].gen == 0
 //@   ensures forall i eid, g uint32 :: {p.issued[mk(Entity, i, g)]} p.issued[mk(Entity, i, g)] == old(p.issued[mk(Entity, i, g)])
-//@   ensures[view] p.next == old(p.next) && p.entities[int(e.id)].id == e.id
+//@   ensures[view] p.next == old(p.next) && p.entities[int(e.id)].id == e.id && p.capacityIncrement == old(p.capacityIncrement)
 //@   ensures[view] forall i int :: {p.entities[i].id} 0 <= i && i < old(len(p.entities)) ==> p.entities[i].id == old(p.entities[i].id)
 //@   modifies *p, p.entities[ALL]
 
@@ -909,16 +912,17 @@ package ecs
 //@   requires int(entity.id) < len(w.entityPool.entities)
 //@   ensures r == (entity.gen == w.entityPool.entities[int(entity.id)].gen)
 
-// (draft, not yet discharged within the time limits: not counted for any property)
+// createEntity: a handle from the pool, a row in the given table, and the entity index entry (arch, row) for it
 //@ func World.createEntity(w, arch) (e)
-//@   requires worldIdxInv(w) && arch != nil && len(w.entities) < 1073741823
+//@   props C02 C01
+//@   requires worldIdxInv(w) && arch != nil && len(w.entities) < 1000000000 && w.config.CapacityIncrement < 1000000000
 //@   flag noframe
 //@   ensures worldIdxInv(w)
 //@   ensures int(e.id) >= 1 && !old(w.entityPool.eused[e.id]) && w.entityPool.eused[e.id] && e.gen == w.entityPool.entities[int(e.id)].gen
 //@   ensures !old(w.entityPool.issued[e]) && w.entityPool.issued[e]
 //@   ensures forall i eid :: {w.entityPool.eused[i]} i != e.id ==> w.entityPool.eused[i] == old(w.entityPool.eused[i])
 //@   ensures w.entities[int(e.id)].arch == arch && w.entities[int(e.id)].index == old(arch.len)
-//@   modifies *(&w.entityPool), w.entities, w.entities[ALL]
+//@   modifies *(&w.entityPool), w.entityPool.entities[ALL], w.entities, w.entities[ALL], *(&w.targetEntities), w.targetEntities.data[ALL], all(archetype.len), all(archetype.cap), all(archetypeAccess.entityPointer), all(layout.pointer)
 
 // (draft, not yet discharged within the time limits: not counted for any property)
 //@ func World.createEntities(w, arch, count)
@@ -1005,19 +1009,83 @@ package ecs
 
 // The batch-result and node-walk strategies are under assumed contracts (they walk interface-typed table
 // lists, maps and paged slices); what callers of Next rely on for them is only that a positioned cursor is usable.
+// ---- C03 / C09: the strategies for plain filters and batch results (thin contracts: valid cursor, lock pairing) --------
+// Table lists behind the `archetypes` interface (single table, batch result, paged slice of a node): ASSUMED to return
+// non-nil tables for indices below Len().
+//@ iface archetypes.Get(self, index) (r)
+//@   flag trusted
+//@   ensures r != nil
+//@ iface archetypes.Len(self) (n)
+//@   flag trusted
+
+// lockHeld / lockReleased: the query's lock bit relative to the lock state at entry
+//@ pred qLockHeld(q *Query) bool = lockInv(&q.world.locks) && specBit(q.world.locks.locks, q.lockBit) && q.world.locks.locks == old(q.world.locks.locks)
+//@ pred qLockReleased(q *Query) bool = lockInv(&q.world.locks) && !specBit(q.world.locks.locks, q.lockBit) && (forall! b uint8 :: b != q.lockBit ==> specBit(q.world.locks.locks, b) == old(specBit(q.world.locks.locks, b)))
+//@ pred qSame(q *Query) bool = q.isFiltered == old(q.isFiltered) && q.isBatch == old(q.isBatch) && q.world == old(q.world) && q.lockBit == old(q.lockBit) && q.filter == old(q.filter)
+
+// what the unfiltered strategies need before a step: the query's lock is held; batch results carry their table list; plain
+// queries carry their filter and the (non-nil) graph nodes
+//@ pred qReadyU(q *Query) bool =
+//@   q.world != nil && lockInv(&q.world.locks) && validID(q.lockBit) && specBit(q.world.locks.locks, q.lockBit)
+//@   && (q.isBatch ==> q.nodeArchetypes != nil && is(q.nodeArchetypes, *batchArchetypes))
+//@   && (!q.isBatch ==> q.filter != nil && (forall k int :: {q.nodes[k]} 0 <= k && k < len(q.nodes) ==> q.nodes[k] != nil && q.nodes[k].nodeData != nil))
+
+//@ func Query.nextArchetypeSimple(q) (ok)
+//@   props C03
+//@   requires q.nodeArchetypes != nil
+//@   ensures qSame(q) && q.nodeArchetypes == old(q.nodeArchetypes) && q.nodeIndex == old(q.nodeIndex)
+//@   ensures ok ==> q.access != nil && q.archetype != nil && q.access == &q.archetype.archetypeAccess && q.archetype.len > 0 && q.entityIndex == 0 && q.entityIndexMax == q.archetype.len - 1 && q.archIndex > old(q.archIndex)
+//@   modifies q.archIndex, q.access, q.archetype, q.entityIndex, q.entityIndexMax
+//@   loop #1
+//@   inv q.archIndex >= old(q.archIndex)
+
+//@ func Query.nextArchetypeBatch(q) (ok)
+//@   props C03
+//@   requires q.nodeArchetypes != nil && is(q.nodeArchetypes, *batchArchetypes)
+//@   flag nosafe
+//@   ensures qSame(q) && q.nodeArchetypes == old(q.nodeArchetypes)
+//@   ensures ok ==> q.access != nil && q.archetype != nil && q.access == &q.archetype.archetypeAccess && q.archetype.len > 0 && q.archIndex > old(q.archIndex)
+//@   ensures ok ==> q.entityIndex == as(q.nodeArchetypes, *batchArchetypes).StartIndex[int(q.archIndex)] && q.entityIndexMax == as(q.nodeArchetypes, *batchArchetypes).EndIndex[int(q.archIndex)] - 1
+//@   modifies q.archIndex, q.access, q.archetype, q.entityIndex, q.entityIndexMax
+//@   loop #1
+//@   inv q.archIndex >= old(q.archIndex)
+
+// nextBatch / nextNode / nextNodeOrArchetype: either a valid cursor with the query's lock still held and the lock state
+// untouched, or the query is closed: its lock bit - and only it - is released (exactly one closeQuery on that path).
 //@ func Query.nextBatch(q) (ok)
-//@   flag trusted nodirty
-//@   ensures ok ==> q.access != nil && q.archetype != nil
-//@   ensures q.isFiltered == old(q.isFiltered) && q.isBatch == old(q.isBatch) && q.world == old(q.world) && q.lockBit == old(q.lockBit)
+//@   props C03 C09
+//@   requires q.world != nil && q.nodeArchetypes != nil && is(q.nodeArchetypes, *batchArchetypes) && lockInv(&q.world.locks) && validID(q.lockBit) && specBit(q.world.locks.locks, q.lockBit)
+//@   flag nosafe
+//@   ensures qSame(q)
+//@   ensures ok ==> q.access != nil && q.archetype != nil && q.access == &q.archetype.archetypeAccess && q.archetype.len > 0 && qLockHeld(q)
+//@   ensures !ok ==> qLockReleased(q) && q.archIndex == -2
+//@   modifies q.archIndex, q.nodeIndex, q.access, q.archetype, q.entityIndex, q.entityIndexMax, q.world.locks.locks.bits, *(&q.world.locks.bitPool)
+
+//@ func Query.nextNode(q) (ok)
+//@   props C03 C09
+//@   requires q.world != nil && q.filter != nil && lockInv(&q.world.locks) && validID(q.lockBit) && specBit(q.world.locks.locks, q.lockBit)
+//@   requires forall k int :: {q.nodes[k]} 0 <= k && k < len(q.nodes) ==> q.nodes[k] != nil && q.nodes[k].nodeData != nil
+//@   flag nosafe
+//@   ensures qSame(q)
+//@   ensures ok ==> q.access != nil && q.archetype != nil && q.access == &q.archetype.archetypeAccess && q.archetype.len > 0 && q.entityIndex == 0 && q.entityIndexMax == q.archetype.len - 1 && qLockHeld(q) && q.nodeIndex > old(q.nodeIndex)
+//@   ensures !ok ==> qLockReleased(q) && q.archIndex == -2 && q.nodeIndex == -2 && q.nodeArchetypes == nil
 //@   modifies q.archIndex, q.nodeIndex, q.access, q.archetype, q.entityIndex, q.entityIndexMax, q.nodeArchetypes, q.world.locks.locks.bits, *(&q.world.locks.bitPool)
+//@   loop #1
+//@   inv q.nodeIndex >= old(q.nodeIndex) && qSame(q) && qLockHeld(q)
+
 //@ func Query.nextNodeOrArchetype(q) (ok)
-//@   flag trusted nodirty
-//@   ensures ok ==> q.access != nil && q.archetype != nil
-//@   ensures q.isFiltered == old(q.isFiltered) && q.isBatch == old(q.isBatch) && q.world == old(q.world) && q.lockBit == old(q.lockBit)
+//@   props C03 C09
+//@   requires q.world != nil && q.filter != nil && lockInv(&q.world.locks) && validID(q.lockBit) && specBit(q.world.locks.locks, q.lockBit)
+//@   requires forall k int :: {q.nodes[k]} 0 <= k && k < len(q.nodes) ==> q.nodes[k] != nil && q.nodes[k].nodeData != nil
+//@   flag nosafe
+//@   ensures qSame(q)
+//@   ensures ok ==> q.access != nil && q.archetype != nil && q.access == &q.archetype.archetypeAccess && q.archetype.len > 0 && q.entityIndex == 0 && q.entityIndexMax == q.archetype.len - 1 && qLockHeld(q)
+//@   ensures !ok ==> qLockReleased(q) && q.archIndex == -2 && q.nodeIndex == -2
 //@   modifies q.archIndex, q.nodeIndex, q.access, q.archetype, q.entityIndex, q.entityIndexMax, q.nodeArchetypes, q.world.locks.locks.bits, *(&q.world.locks.bitPool)
 
 //@ func Query.nextArchetype(q) (ok)
-//@   props C03
+//@   props C03 C09
+//@   requires !q.isFiltered ==> qReadyU(q)
 //@   requires q.isFiltered ==> listOK(q) && lockInv(&q.world.locks) && validID(q.lockBit) && specBit(q.world.locks.locks, q.lockBit)
 //@   requires q.isFiltered ==> q.archIndex >= -1 && int(q.archIndex) < len(q.archetypes)
 //@   assume q.isFiltered ==> psumFDef(q)
@@ -1032,11 +1100,14 @@ package ecs
 //@   ensures q.isFiltered && !ok && old(q.archIndex) == -1 ==> psumF(q.archetypes.data, len(q.archetypes)) == 0
 //@   ensures q.isFiltered && !ok ==> q.archIndex == -2 && !specBit(q.world.locks.locks, q.lockBit)
 //@   ensures q.isFiltered && ok ==> specBit(q.world.locks.locks, q.lockBit) && lockInv(&q.world.locks)
+//@   ensures[ucursor] !q.isFiltered && ok ==> q.access == &q.archetype.archetypeAccess && q.archetype.len > 0 && qLockHeld(q) && qReadyU(q)
+//@   ensures[uclosed] !q.isFiltered && !ok ==> qLockReleased(q) && q.archIndex == -2
 //@   modifies q.archIndex, q.nodeIndex, q.access, q.archetype, q.entityIndex, q.entityIndexMax, q.nodeArchetypes, q.world.locks.locks.bits, *(&q.world.locks.bitPool)
 
 // successor: Next advances the global position by exactly one, or closes the query exactly when the position was the last one
 //@ func Query.Next(q) (ok)
-//@   props C03
+//@   props C03 C09
+//@   requires !q.isFiltered ==> qReadyU(q) && (q.entityIndex < q.entityIndexMax ==> q.access != nil)
 //@   requires q.isFiltered ==> listOK(q) && curOKF(q) && lockInv(&q.world.locks) && validID(q.lockBit) && specBit(q.world.locks.locks, q.lockBit)
 //@   assume q.isFiltered ==> psumFDef(q)
 //@   assume q.isFiltered ==> psumFMono(q)
@@ -1052,6 +1123,8 @@ package ecs
 //@   ensures q.isFiltered && ok ==> specBit(q.world.locks.locks, q.lockBit) && lockInv(&q.world.locks)
 //@   ensures q.isFiltered && !ok ==> old(posF(q)) + 1 == int(psumF(q.archetypes.data, len(q.archetypes)))
 //@   ensures q.isFiltered && !ok ==> q.archIndex == -2 && !specBit(q.world.locks.locks, q.lockBit)
+//@   ensures[ucursor] !q.isFiltered && ok ==> q.access != nil && qLockHeld(q) && qReadyU(q)
+//@   ensures[uclosed] !q.isFiltered && !ok ==> qLockReleased(q) && q.archIndex == -2
 //@   modifies q.archIndex, q.nodeIndex, q.access, q.archetype, q.entityIndex, q.entityIndexMax, q.nodeArchetypes, q.world.locks.locks.bits, *(&q.world.locks.bitPool)
 
 //@ func Query.countEntities(q) (n)
@@ -1646,16 +1719,19 @@ package ecs
 //@   ensures forall! b uint8 :: b != q.lockBit ==> specBit(w.locks.locks, b) == old(specBit(w.locks.locks, b))
 //@   ensures q.isFiltered == is(filter, *CachedFilter) && !q.isBatch && q.archIndex == -1 && q.nodeIndex == -1 && q.entityIndex == 0 && q.entityIndexMax == 0 && q.count == -1
 //@   ensures q.isFiltered ==> q.archetypes == w.filterCache.filters[w.filterCache.indices[as(filter, *CachedFilter).id]].Archetypes.pointers
+//@   ensures !q.isFiltered ==> q.filter == filter && q.nodes == w.nodePointers && q.nodeArchetypes == nil
 
 // DumpEntities returns a deep copy of the pool view: a NEW backing store holding the pool's entities, the free-list head and count.
 //@ func World.DumpEntities(w) (d)
 //@   props C17 C02
 //@   requires lockInv(&w.locks)
 //@   requires forall id uint32 :: {mapHas(w.filterCache.indices, id)} mapHas(w.filterCache.indices, id) ==> 0 <= w.filterCache.indices[id] && w.filterCache.indices[id] < len(w.filterCache.filters)
+//@   requires forall k int :: {w.nodePointers[k]} 0 <= k && k < len(w.nodePointers) ==> w.nodePointers[k] != nil && w.nodePointers[k].nodeData != nil
 //@   flag may_panic noframe nosafe
 //@   ensures fresh(d.Entities.data) && len(d.Entities) == len(w.entityPool.entities)
 //@   ensures forall k int :: {d.Entities[k].id} 0 <= k && k < len(d.Entities) ==> d.Entities[k].id == w.entityPool.entities[k].id && d.Entities[k].gen == w.entityPool.entities[k].gen
 //@   ensures d.Next == uint32(w.entityPool.next) && d.Available == w.entityPool.available
+//@   ensures[lock] lockInv(&w.locks) && (forall! b uint8 :: specBit(w.locks.locks, b) == old(specBit(w.locks.locks, b)))
 //@   ensures len(w.entityPool.entities) == old(len(w.entityPool.entities)) && w.entityPool.entities.data == old(w.entityPool.entities.data)
 //@   ensures forall k int :: {w.entityPool.entities[k].id} 0 <= k && k < len(w.entityPool.entities) ==> w.entityPool.entities[k].id == old(w.entityPool.entities[k].id) && w.entityPool.entities[k].gen == old(w.entityPool.entities[k].gen)
 //@   loop #1
@@ -1663,6 +1739,8 @@ package ecs
 //@   inv forall k int :: {w.entityPool.entities[k].id} 0 <= k && k < len(w.entityPool.entities) ==> w.entityPool.entities[k].id == old(w.entityPool.entities[k].id) && w.entityPool.entities[k].gen == old(w.entityPool.entities[k].gen)
 //@   inv !query.isFiltered && query.world == w
 //@   inv query.access != nil || query.entityIndex >= query.entityIndexMax
+//@   inv !query.isBatch && query.filter != nil && query.nodes == w.nodePointers && lockInv(&w.locks) && validID(query.lockBit) && specBit(w.locks.locks, query.lockBit)
+//@   inv !specBit(old(w.locks.locks), query.lockBit) && (forall! b uint8 :: b != query.lockBit ==> specBit(w.locks.locks, b) == specBit(old(w.locks.locks), b))
 
 // LoadEntities: refused (before any change) on a locked world and on a world that has or had entities; otherwise the pool
 // view (entities, next, available) becomes a deep copy of the dump's: a NEW backing store with the dump's handles.
@@ -1785,6 +1863,7 @@ package ecs
 //@ func World.exchangeArch(w, oldArch, oldArchLen, add, rem, relation, hasRelation, target) (arch, start)
 //@   props C08 C05
 //@   requires regInv(&w.registry) && idsValid(add) && idsValid(rem) && validID(relation.id) && oldArch != nil && oldArch.node != nil && oldArch.node.nodeData != nil
+//@   requires idsValid(oldArch.node.nodeData.Ids)
 //@   requires (len(add) > 0 || len(rem) > 0) && oldArchLen < 1073741823 && int(oldArch.archetypeAccess.RelationTarget.id) < len(w.entityPool.entities) && bitSetCovers(&w.targetEntities, len(w.entityPool.entities)) && (hasRelation && target.id != 0 ==> int(target.id) < len(w.entityPool.entities))
 //@   requires forall i uint32 :: {entAt(&oldArch.archetypeAccess, i)} i < oldArchLen ==> int(entAt(&oldArch.archetypeAccess, i).id) < len(w.entities)
 //@   requires forall i uint32, j uint32 :: {entAt(&oldArch.archetypeAccess, i), entAt(&oldArch.archetypeAccess, j)} i < j && j < oldArchLen ==> entAt(&oldArch.archetypeAccess, i).id != entAt(&oldArch.archetypeAccess, j).id
@@ -1821,3 +1900,29 @@ package ecs
 //@   inv forall k uint32 :: {entAt(&oldArch.archetypeAccess, k)} k < i ==> w.entities[int(entAt(&oldArch.archetypeAccess, k).id)].arch == arch && w.entities[int(entAt(&oldArch.archetypeAccess, k).id)].index == startIdx + k
 //@   loop #2
 //@   inv true
+
+// ---------------------------------------------------------------------------------------------
+// C11 — creation events
+// ---------------------------------------------------------------------------------------------
+// NewEntity: refused on a locked world before any change; the new handle is alive and was never issued before; the
+// listener is notified exactly once iff its rule selects a creation event, after the creation, with the world
+// unlocked, and the event is (Entity = the new handle, Added = the table's component set, AddedIDs = the given IDs,
+// NewRelation = the table's relation component or nil, no removed / old parts, type bits = EntityCreated,
+// ComponentAdded iff IDs were given, RelationChanged and TargetChanged iff the table has a relation component).
+//@ pred newBits(arch *archetype, n int) event.Subscription = evBits(true, false, n > 0, false, arch.archetypeAccess.HasRelationComponent, arch.archetypeAccess.HasRelationComponent)
+//@ pred newSelected(w *World, arch *archetype, n int) bool =
+//@   subRuleV(lsSubs(w.listener) & newBits(arch, n), arch.archetypeAccess.Mask, true, arch.archetypeAccess.Mask, false, lsComps(w.listener), nil, exchNewRel(arch))
+
+//@ func World.NewEntity(w, comps) (e)
+//@   props C11 C02 C09
+//@   requires lockInv(&w.locks) && worldIdxInv(w) && len(w.entities) < 1000000000 && w.config.CapacityIncrement < 1000000000
+//@   requires validID(pgArch(&w.archetypes, 0).archetypeAccess.RelationComponent.id)
+//@   flag nosafe may_panic noframe
+//@   lockfast isLocked(w)
+//@   ensures[alive] entAlive(w, e) && int(e.id) >= 1 && !old(w.entityPool.issued[e]) && w.entityPool.issued[e] && worldIdxInv(w) && w.entities[int(e.id)].arch != nil
+//@   ensures[unlocked] !isLocked(w) && w.listener == old(w.listener)
+//@   ensures[count] w.listener != nil ==> notifyCount[w.listener.val] == old(notifyCount[w.listener.val]) + ite(newSelected(w, w.entities[int(e.id)].arch, len(comps)), 1, 0)
+//@   ensures[event] w.listener != nil && newSelected(w, w.entities[int(e.id)].arch, len(comps)) ==>
+//@      notifyLast[w.listener.val] == evtId(mk(EntityEvent, nil, exchNewRel(w.entities[int(e.id)].arch), comps, nil, w.entities[int(e.id)].arch.archetypeAccess.Mask, zeroMaskV(), e, mk(Entity, 0, 0),
+//@           newBits(w.entities[int(e.id)].arch, len(comps))))
+//@   ensures[silent] w.listener == nil ==> (forall l ref :: {notifyCount[l]} notifyCount[l] == old(notifyCount[l]))
